@@ -24,6 +24,7 @@ import (
 	sqlite3 "github.com/mattn/go-sqlite3"
 	"gorm.io/driver/sqlite"
 	"gorm.io/gorm"
+	"gorm.io/gorm/callbacks"
 	"gorm.io/gorm/clause"
 	"gorm.io/gorm/logger"
 
@@ -207,6 +208,8 @@ type Op struct {
 	Share     bool     `json:"share,omitempty"`     // slices: the users that have a company share ONE *Company value
 	BatchSize int      `json:"batch_size,omitempty"` // Session{CreateBatchSize}
 	Scopes    bool     `json:"scopes,omitempty"`    // the call goes through db.Scopes(...)
+	FwdID     bool     `json:"fwd_id,omitempty"`    // with NoRet: LastInsertId is the FIRST row's key (MySQL style) instead of the last (SQLite style)
+	Form      int      `json:"form,omitempty"`      // update_row / create_map(s): alternative form of the same call
 }
 
 type Input struct {
@@ -452,15 +455,29 @@ func doOp(db *gorm.DB, op Op) error {
 		p := buildUser(UserSpec{Pets: []PetSpec{op.Pet}}).Pets[0]
 		p.UserID = op.Target
 		return db.Create(&p).Error
-	case "update_row": // rows whose update time is tracked in seconds / milli- / nanoseconds
+	case "update_row": // rows whose update time is tracked in seconds / milli- / nanoseconds, soft-deletable rows
+		name := op.Users[0].Name
 		switch op.Table {
 		case "companies":
-			return db.Model(&Company{ID: op.Target}).Updates(Company{Name: op.Users[0].Name}).Error
+			if op.Form == 1 {
+				return db.Model(&Company{ID: op.Target}).Update("name", name).Error
+			}
+			return db.Model(&Company{ID: op.Target}).Updates(Company{Name: name}).Error
 		case "profiles":
-			return db.Model(&Profile{ID: op.Target}).Update("bio", op.Users[0].Name).Error
+			if op.Form == 1 {
+				return db.Model(&Profile{ID: op.Target}).Updates(Profile{Bio: name}).Error
+			}
+			return db.Model(&Profile{ID: op.Target}).Update("bio", name).Error
+		case "pets":
+			return db.Model(&Pet{ID: op.Target}).Update("name", name).Error
 		default:
-			return db.Model(&Badge{ID: op.Target}).Updates(map[string]interface{}{"label": op.Users[0].Name}).Error
+			if op.Form == 1 {
+				return db.Model(&Badge{ID: op.Target}).Updates(Badge{Label: name}).Error
+			}
+			return db.Model(&Badge{ID: op.Target}).Updates(map[string]interface{}{"label": name}).Error
 		}
+	case "create_slice_value": // a slice passed BY VALUE: its elements are not addressable
+		return db.Create(users(op)).Error
 	case "create_slice":
 		us := users(op)
 		return db.Create(&us).Error
@@ -478,11 +495,18 @@ func doOp(db *gorm.DB, op Op) error {
 		u := buildUser(op.Users[0])
 		return db.CreateInBatches(&u, op.Batch).Error
 	case "create_map":
-		return db.Model(&User{}).Create(map[string]interface{}{"name": op.Users[0].Name, "age": op.Users[0].Age}).Error
+		m := map[string]interface{}{"name": op.Users[0].Name, "age": op.Users[0].Age}
+		if op.Form == 1 {
+			return db.Model(&User{}).Create(&m).Error
+		}
+		return db.Model(&User{}).Create(m).Error
 	case "create_maps":
 		ms := make([]map[string]interface{}, len(op.Users))
 		for i, s := range op.Users {
 			ms[i] = map[string]interface{}{"name": s.Name, "age": s.Age}
+		}
+		if op.Form == 1 {
+			return db.Model(&User{}).Create(ms).Error
 		}
 		return db.Model(&User{}).Create(&ms).Error
 	case "save":
@@ -538,6 +562,10 @@ func runOnce(in Input, refDumps []string) (Observed, []string) {
 	}
 	db := openHandle(e.sqlDB)
 	e.rec.FakeVersion = ""
+	if in.Op.FwdID { // a dialect whose LastInsertId is the first inserted key (public callback API)
+		lib.Must(db.Callback().Create().Replace("gorm:create", callbacks.Create(&callbacks.Config{
+			CreateClauses: []string{"INSERT", "VALUES", "ON CONFLICT"}, LastInsertIDReversed: false})))
+	}
 	history(db, in.Pre)
 	st := &runState{dfault: in.DFault, hfault: in.HFault, fresh: e.fresh, wantDumps: refDumps == nil}
 	st.dumps = []string{dumpAll(e.fresh)}
@@ -885,6 +913,7 @@ func (g *gen) input() Input {
 	}
 	if strings.HasPrefix(op.Kind, "create") || op.Kind == "save" || op.Kind == "save_slice" {
 		op.NoRet = r.Chance(1, 4)
+		op.FwdID = op.NoRet && r.Chance(1, 3)
 	}
 	op.Scopes = r.Chance(1, 8)
 	in.Op = op
@@ -1138,6 +1167,14 @@ func main() {
 			{Kind: "delete_where", Users: []UserSpec{{ID: 2}}}, {Kind: "delete_model", Users: []UserSpec{{ID: 1}}, Select: []string{"Profile"}},
 			{Kind: "delete_pet", Users: []UserSpec{{ID: 1}}, Select: []string{"*"}}, {Kind: "delete_pet", Users: []UserSpec{{ID: 1}}, Select: []string{"Toys", "Collar"}, Unscoped: true},
 			{Kind: "create_value", Users: []UserSpec{small}}, {Kind: "create", Users: []UserSpec{withID(small, 1)}},
+			{Kind: "create_slice_value", Users: []UserSpec{small, small}}, {Kind: "create_slice", Users: []UserSpec{}},
+			{Kind: "create_map", Users: []UserSpec{plain}, Form: 1}, {Kind: "create_maps", Users: []UserSpec{plain, plain}, Form: 1},
+			{Kind: "create_slice", Users: []UserSpec{small, full}, NoRet: true, FwdID: true}, {Kind: "create", Users: []UserSpec{full}, NoRet: true, FwdID: true},
+			{Kind: "create_maps", Users: []UserSpec{plain, plain}, NoRet: true, FwdID: true},
+			{Kind: "update_row", Table: "companies", Target: 1, Users: []UserSpec{plain}, Form: 1}, {Kind: "update_row", Table: "profiles", Target: 1, Users: []UserSpec{plain}, Form: 1},
+			{Kind: "update_row", Table: "badges", Target: 1, Users: []UserSpec{plain}, Form: 1}, {Kind: "update_row", Table: "pets", Target: 1, Users: []UserSpec{plain}},
+			{Kind: "updates_map", Target: 1, Users: []UserSpec{plain}, Sel: []string{"Name"}},
+			{Kind: "delete", Users: []UserSpec{{ID: 1}}, Select: []string{"Pets", "Pets.Toys"}},
 		}
 		for i, op := range menu {
 			if a.N > 0 && i >= a.N/25 {
@@ -1149,7 +1186,7 @@ func main() {
 			}
 			addOp("menu", in, -1, -1)
 		}
-		nops -= 40
+		nops -= 50
 		if nops < 20 {
 			nops = 20
 		}
